@@ -121,6 +121,7 @@ func genUpload(t *rapid.T, withGaps bool) upScript {
 	emit := func(c chunkRef) {
 		s.Items = append(s.Items, upItem{Kind: "chunk", File: c.file, Off: c.off, Len: c.ln})
 	}
+	var uploadFile func(fi int) // one file: 0x1211, chunks (some held back), 0x1212, retransmission rounds
 	interleave := nf > 1 && rapid.IntRange(0, 3).Draw(t, "interleave") == 0
 	order := rapid.Permutation(seq(nf)).Draw(t, "file_order")
 	if interleave {
@@ -145,7 +146,7 @@ func genUpload(t *rapid.T, withGaps bool) upScript {
 			s.Items = append(s.Items, upItem{Kind: "1212", File: fi})
 		}
 	} else {
-		for _, fi := range order {
+		uploadFile = func(fi int) {
 			s.Items = append(s.Items, upItem{Kind: "1211", File: fi})
 			chunks := perFile[fi]
 			if len(chunks) > 1 && rapid.IntRange(0, 2).Draw(t, "shuffle") != 0 {
@@ -206,11 +207,18 @@ func genUpload(t *rapid.T, withGaps bool) upScript {
 				}
 			}
 		}
+		for _, fi := range order {
+			uploadFile(fi)
+		}
 	}
 	if rapid.IntRange(0, 5).Draw(t, "reannounce") == 0 {
 		// the terminal announces the same files again on the same connection and uploads them a second time
 		s.Items = append(s.Items, upItem{Kind: "1210"})
 		for _, fi := range order {
+			if uploadFile != nil && rapid.Bool().Draw(t, "second_pass_with_gaps") {
+				uploadFile(fi) // the second upload has its own losses and retransmission rounds
+				continue
+			}
 			s.Items = append(s.Items, upItem{Kind: "1211", File: fi})
 			for _, c := range perFile[fi] {
 				emit(c)
